@@ -26,6 +26,11 @@ let stages : (Stdlib.String.t * (Stdlib.String.t list -> n list)) list = [
   "split", (fun f -> show_pieces (split_statements (unhex (List.nth f 0))));
   "parse", (fun f -> show_parse (unhex (List.nth f 0)));
   "spans", (fun f -> show_spans (unhex (List.nth f 0)));
+  "walk", (fun f ->
+     let m = int_of_string (List.nth f 1) in
+     show_walk (if m < 0 then None else Some (nat_of_int m)) (unhex (List.nth f 0)));
+  "lit", (fun f -> show_lit (unhex (List.nth f 0)));
+  "cli", (fun f -> show_cli (unhex (List.nth f 0)));
   "compile", (fun f ->
      let rec pairs = function k :: v :: r -> (unhex k, unhex v) :: pairs r | _ -> [] in
      show_compile (pairs (List.tl f)) (unhex (List.hd f)));
